@@ -212,6 +212,20 @@ HAND = [
     # ignores edge attributes would merge the two orientations and lose a reaction (whole-ITS template, core=False)
     ("[CH2:1][CH:2][CH2:3]>>[CH2:1]=[CH:2][CH2:3]", ["CC(C)CO", "CCCO"], []),
 ]
+# Left side and all before/after bond orders mirror-symmetric; the exchanged atoms differ on the PRODUCT side only, in a
+# node-level label (charge-only / H-count-only, element preserved).  A rule-symmetry test that looks at the left labels
+# only (e.g. drops the before/after atom types typesGH) merges the two orientations and loses half of the products on an
+# unsymmetrical substrate.  Always run in default (explicit-H) and implicit-H mode, core and whole-ITS template.
+ASYM = [
+    ("[CH3:1][CH3:2]>>[CH3+:1].[CH3-:2]", ["CCC(C)C", "CCO"]),          # sigma heterolysis (default mode: hcount is reset)
+    ("[CH2:1][CH2:2]>>[CH2+:1].[CH2-:2]", ["CCCO", "CCC(C)C"]),         # the same, matches in implicit mode too
+    ("[CH:1]=[CH:2]>>[CH+:1][CH-:2]", ["CC=CO"]),                        # pi heterolysis
+    ("[CH2:1]=[CH2:2]>>[CH2+:1][CH2-:2]", ["CC=C(C)C", "C=CO"]),
+    ("[OH:1][OH:2]>>[OH+:1].[OH-:2]", ["COO", "CCOO"]),                  # heteroatoms
+    ("[CH2:1][CH2:2]>>[CH:1].[CH3:2]", ["CCCO", "CCCN"]),               # H-count only (visible in implicit mode)
+    ("[CH:1]=[CH:2]>>[C:1][CH2:2]", ["CC=CO"]),
+    ("[NH:1][NH:2]>>[N:1].[NH2:2]", ["CNNCC"]),
+]
 OPTS = [{}, {"strategy": "comp"}, {"strategy": "bt"}, {"automorphism": True}, {"explicit_h": False, "implicit_temp": True}]
 
 
@@ -226,6 +240,12 @@ def hand_cases(tier):
                             continue
                         out.append(dict(kind="prune", name="hand%d/%s/%s/%d/%d" % (ti, "core" if core else "full", "bwd" if inv else "fwd", si, oi),
                                         tpl=tpl, core=core, sub=sub, invert=inv, opts=dict(o)))
+    for ti, (tpl, subs) in enumerate(ASYM):
+        for core in (True, False):
+            for si, sub in enumerate(subs):
+                for oi in (0, 4):
+                    out.append(dict(kind="prune", name="asym%d/%s/fwd/%d/%d" % (ti, "core" if core else "full", si, oi),
+                                    tpl=tpl, core=core, sub=sub, invert=False, opts=dict(OPTS[oi])))
     return out
 
 
